@@ -6,18 +6,21 @@ From Fsn Require Import Conc ConcDefs.
 Local Open Scope nat_scope.
 
 Section Live.
-  Context {E X D C R : Type}.
+  Context {E X D C R I K : Type}.
   Variable api : D → C → D * R.
   Variable closed_result : C → R.
-  Notation cstate := (@cstate E X D C R).
-  Notation rpc := (@rpc E X).
+  Variable pre : I → list (@msg E X).
+  Variable hnd : D → I → D * list (@msg E X).
+  Variable env : D → K → option D.
+  Notation cstate := (@cstate E X D C R I K).
+  Notation rpc := (@rpc E X I).
   Notation cpc := (@cpc C R).
-  Notation label := (@label E X C R).
-  Notation item := (@item E X).
+  Notation label := (@label C R I K).
   Notation msg := (@msg E X).
-  Notation cstep := (cstep api closed_result).
-  Notation crun := (crun api closed_result).
+  Notation cstep := (cstep api closed_result pre hnd env).
+  Notation crun := (crun api closed_result pre hnd env).
   Notation thread_step := (thread_step api closed_result).
+  Notation reader_step := (reader_step pre hnd).
 
   (* ------------------------------------------------------------------------------------------------------------ *)
   (* Auxiliary invariant (facts about reachable states that CInv of ConcDefs.v does not record)                    *)
@@ -98,17 +101,17 @@ Section Live.
     reader_step cap cf s = Some s' →
     reader_measure (rd s') < reader_measure (rd s) ∧ done_closed s' = true ∧ file_closed s' = true ∧ thr s' = thr s.
   Proof.
-    intros Hcf Hd Hf. unfold reader_step. rewrite Hcf, Hd, Hf.
+    intros Hcf Hd Hf. unfold Conc.reader_step. rewrite Hcf, Hd, Hf.
     destruct (rd s) as [| |[|it items]|[|[e|x] ms] it rest|it rest|it rest|[|[e|x] ms] after rest|[|[e|x] ms] rest| | | |];
-      destruct (mu s); intros; simplify_eq/=; repeat split; auto; lia.
+      destruct (mu s); try destruct (hnd (data s) it); intros; simplify_eq/=; repeat split; auto; lia.
   Qed.
 
   Lemma reader_step_keeps cap cf (s s' : cstate) :
     done_closed s = true → reader_step cap cf s = Some s' → Fin s → RdMu s → Fin s' ∧ RdMu s'.
   Proof.
-    intros Hd Hs (H2 & H3 & H4) Hmu. unfold reader_step in Hs. unfold Fin, RdMu in *. rewrite Hd in Hs.
+    intros Hd Hs (H2 & H3 & H4) Hmu. unfold Conc.reader_step in Hs. unfold Fin, RdMu in *. rewrite Hd in Hs.
     destruct (rd s) as [| |[|it items]|[|[e|x] ms] it rest|it rest|it rest|[|[e|x] ms] after rest|[|[e|x] ms] rest| | | |];
-      simpl in *; destruct (mu s) eqn:Hm, (cf_send_in_cs cf), (file_closed s); simplify_eq/=;
+      simpl in *; try destruct (hnd (data s) it); destruct (mu s) eqn:Hm, (cf_send_in_cs cf), (file_closed s); simplify_eq/=;
       (split; [repeat split|]); intros; simplify_eq/=; auto;
       try (by apply H3); try (by apply H2); try (by apply Hmu); try (by specialize (Hmu eq_refl)).
   Qed.
@@ -116,9 +119,10 @@ Section Live.
   Lemma reader_enabled cap cf (s : cstate) :
     done_closed s = true → file_closed s = true → RdMu s → rd s ≠ RDead → is_Some (reader_step cap cf s).
   Proof.
-    intros Hd Hf. unfold reader_step, RdMu. rewrite Hd, Hf.
+    intros Hd Hf. unfold Conc.reader_step, RdMu. rewrite Hd, Hf.
     destruct (rd s) as [| |[|it items]|[|[e|x] ms] it rest|it rest|it rest|[|[e|x] ms] after rest|[|[e|x] ms] rest| | | |];
-      intros Hmu ?; simpl in *; try rewrite Hmu by done; try destruct (cf_send_in_cs cf); try done; eauto.
+      intros Hmu ?; simpl in *; try rewrite Hmu by done; try destruct (hnd (data s) it);
+      try destruct (cf_send_in_cs cf); try done; eauto.
   Qed.
 
   Lemma reader_run cap cf n : ∀ s : cstate,
@@ -219,9 +223,10 @@ Section Live.
         pose proof (proj1 (ci_reader_mu _ _ HI) Hm) as Hcs.
         destruct (rd s) as [| | | | |it rest|ms a r| | | | |] eqn:Hrd; try done.
         2:{ by destruct (li_no_cs_send _ _ HL Hcf ms a r). }
-        exists [LThr reader_tid], (upd_mu (upd_rd s (RPost (it_post it) rest)) None).
+        destruct (hnd (data s) it) as [d' post] eqn:Hh.
+        eexists [LThr reader_tid], _.
         split; [apply only_threads_cons, only_threads_nil|].
-        split. { erewrite crun_cons; [done|]. rewrite cstep_rd. unfold reader_step. by rewrite Hrd, Hcf. }
+        split. { erewrite crun_cons; [done|]. rewrite cstep_rd. unfold Conc.reader_step. by rewrite Hrd, Hh, Hcf. }
         simpl. split_and!; auto; try lia; try done.
       + destruct (proj1 (ci_thread_mu _ _ HI h Hh) Hm) as (p & Hp & Hpcs).
         destruct (holder_release cf s h p Hp Hpcs) as (s' & Hs & ? & Hrd & Ht & ? & ? & ? & ? & ?).
@@ -431,12 +436,12 @@ Section Live.
     destruct (ci_resp_closed _ _ HI Hr) as [Hrd|[Hrd|Hrd]].
     - eexists [LThr reader_tid; LThr reader_tid], _.
       split; [repeat apply only_threads_cons; apply only_threads_nil|]. split; [simpl; lia|].
-      split. { erewrite crun_cons by (rewrite cstep_rd; unfold reader_step; rewrite Hrd; done).
-               erewrite crun_cons by (rewrite cstep_rd; unfold reader_step; simpl; done). done. }
+      split. { erewrite crun_cons by (rewrite cstep_rd; unfold Conc.reader_step; rewrite Hrd; done).
+               erewrite crun_cons by (rewrite cstep_rd; unfold Conc.reader_step; simpl; done). done. }
       done.
     - eexists [LThr reader_tid], _.
       split; [repeat apply only_threads_cons; apply only_threads_nil|]. split; [simpl; lia|].
-      split. { erewrite crun_cons by (rewrite cstep_rd; unfold reader_step; rewrite Hrd; done). done. }
+      split. { erewrite crun_cons by (rewrite cstep_rd; unfold Conc.reader_step; rewrite Hrd; done). done. }
       simpl. split_and!; auto. apply (li_exit_er _ _ HL); auto.
     - exists [], s. split; [apply only_threads_nil|]. split; [simpl; lia|]. split; [done|].
       split_and!; auto. { apply (li_dead_ev _ _ HL); auto. } { apply (li_exit_er _ _ HL); auto. }
@@ -472,7 +477,7 @@ Section Live.
     cf_send_in_cs cf = false → cstep cap cf s l = Some s' → done_closed s = true → file_closed s = true →
     reader_measure (rd s') ≤ reader_measure (rd s).
   Proof.
-    intros cap cf s s' l Hcf Hs Hd Hf. destruct l as [t| | |b|t p].
+    intros cap cf s s' l Hcf Hs Hd Hf. destruct l as [t| | |b|t p|k].
     - destruct (decide (t = reader_tid)) as [->|Ht].
       + rewrite cstep_rd in Hs. destruct (reader_step_closed _ _ _ _ Hcf Hd Hf Hs) as (? & _). lia.
       + rewrite cstep_thr in Hs by done. apply thread_step_frame in Hs as (-> & _). done.
@@ -484,6 +489,7 @@ Section Live.
     - unfold Conc.cstep in Hs. rewrite Hf in Hs. by destruct (rd s).
     - unfold Conc.cstep in Hs. destruct (decide (t = reader_tid)); [done|].
       destruct (thr s !! t), p; by simplify_eq/=.
+    - unfold Conc.cstep in Hs. destruct (env (data s) k); by simplify_eq/=.
   Qed.
 
   (* with done and the file closed, the reader is blocked only while waiting for mu held by another thread *)
@@ -492,9 +498,9 @@ Section Live.
     reader_step cap cf s = None → rd s ≠ RDead →
     ∃ it rest t, rd s = RWantLock it rest ∧ mu s = Some t ∧ t ≠ reader_tid.
   Proof.
-    intros cap cf s HI Hd Hf Hs Hrd. unfold reader_step in Hs. rewrite Hd, Hf in Hs.
+    intros cap cf s HI Hd Hf Hs Hrd. unfold Conc.reader_step in Hs. rewrite Hd, Hf in Hs.
     destruct (rd s) as [| |[|it items]|[|[e|x] ms] it rest|it rest|it rest|[|[e|x] ms] after rest|[|[e|x] ms] rest| | | |] eqn:Hr;
-      try done; try (destruct (cf_send_in_cs cf); done).
+      try done; try (destruct (cf_send_in_cs cf); done); try (destruct (hnd (data s) it), (cf_send_in_cs cf); done).
     destruct (mu s) as [t|] eqn:Hm; [|done]. exists it, rest, t. split_and!; auto.
     intros ->. apply (ci_reader_mu _ _ HI) in Hm. by rewrite Hr in Hm.
   Qed.
@@ -506,27 +512,27 @@ Section Live.
     done_closed s = false → length (ev_buf s) < cap → rd s = RPost (MEv e :: ms) rest →
     ∃ s', reader_step cap cf s = Some s' ∧ ev_buf s' = ev_buf s ++ [e] ∧ rd s' = RPost ms rest.
   Proof.
-    intros cap cf s e ms rest Hd Hl Hrd. unfold reader_step. rewrite Hrd, Hd, decide_True by done.
+    intros cap cf s e ms rest Hd Hl Hrd. unfold Conc.reader_step. rewrite Hrd, Hd, decide_True by done.
     eexists. split; [done|]. done.
   Qed.
   Theorem buffer_absorbs_pre : ∀ cap cf (s : cstate) e ms it rest,
     done_closed s = false → length (ev_buf s) < cap → rd s = RPre (MEv e :: ms) it rest →
     ∃ s', reader_step cap cf s = Some s' ∧ ev_buf s' = ev_buf s ++ [e] ∧ rd s' = RPre ms it rest.
   Proof.
-    intros cap cf s e ms it rest Hd Hl Hrd. unfold reader_step. rewrite Hrd, Hd, decide_True by done.
+    intros cap cf s e ms it rest Hd Hl Hrd. unfold Conc.reader_step. rewrite Hrd, Hd, decide_True by done.
     eexists. split; [done|]. done.
   Qed.
   Theorem buffer_full_waits : ∀ cap cf (s : cstate) e ms rest,
     length (ev_buf s) = cap → done_closed s = false → rd s = RPost (MEv e :: ms) rest →
     reader_step cap cf s = None.
   Proof.
-    intros cap cf s e ms rest Hl Hd Hrd. unfold reader_step. rewrite Hrd, Hd, decide_False by lia. done.
+    intros cap cf s e ms rest Hl Hd Hrd. unfold Conc.reader_step. rewrite Hrd, Hd, decide_False by lia. done.
   Qed.
   Theorem buffer_full_waits_pre : ∀ cap cf (s : cstate) e ms it rest,
     length (ev_buf s) = cap → done_closed s = false → rd s = RPre (MEv e :: ms) it rest →
     reader_step cap cf s = None.
   Proof.
-    intros cap cf s e ms it rest Hl Hd Hrd. unfold reader_step. rewrite Hrd, Hd, decide_False by lia. done.
+    intros cap cf s e ms it rest Hl Hd Hrd. unfold Conc.reader_step. rewrite Hrd, Hd, decide_False by lia. done.
   Qed.
   (* … and the consumer then gets exactly the oldest buffered event; nothing is dropped *)
   Theorem buffer_full_consume : ∀ (s : cstate) e b,
@@ -573,7 +579,7 @@ Section Live.
   Qed.
   (* the reader is the watcher's only goroutine; once it is dead it takes no step *)
   Theorem reader_dead_stuck : ∀ cap cf (s : cstate), rd s = RDead → reader_step cap cf s = None.
-  Proof. intros cap cf s Hrd. unfold reader_step. by rewrite Hrd. Qed.
+  Proof. intros cap cf s Hrd. unfold Conc.reader_step. by rewrite Hrd. Qed.
 
   (* ------------------------------------------------------------------------------------------------------------ *)
   (* LInv holds in every reachable state                                                                           *)
@@ -583,7 +589,7 @@ Section Live.
 
   Lemma LInv_reader cap cf (s s' : cstate) : reader_step cap cf s = Some s' → LInv cf s → LInv cf s'.
   Proof.
-    intros Hs [H1 H2 H3 H4]. unfold reader_step in Hs.
+    intros Hs [H1 H2 H3 H4]. unfold Conc.reader_step in Hs.
     destruct (rd s) as [| |[|it items]|[|[e|x] ms] it rest|it rest|it rest|[|[e|x] ms] after rest|[|[e|x] ms] rest| | | |] eqn:Hr;
       repeat case_match; simplify_eq/=; constructor; simpl; intros; try done; try congruence;
       try (by destruct (H1 ltac:(done) _ _ _ eq_refl)); try (by intuition); auto.
@@ -612,7 +618,7 @@ Section Live.
 
   Lemma LInv_step cap cf (s s' : cstate) l : cstep cap cf s l = Some s' → LInv cf s → LInv cf s'.
   Proof.
-    intros Hs HL. destruct l as [t| | |b|t p].
+    intros Hs HL. destruct l as [t| | |b|t p|k].
     - destruct (decide (t = reader_tid)) as [->|Ht].
       + rewrite cstep_rd in Hs. by eapply LInv_reader.
       + rewrite cstep_thr in Hs by done. destruct HL as [H1 H2 H3 H4].
@@ -635,6 +641,8 @@ Section Live.
       assert (s' = upd_thr s t p) as -> by (destruct p; by simplify_eq/=).
       constructor; simpl; auto. intros Hd. destruct (H4 Hd) as [?|[t' Ht']]; [by left|right].
       exists t'. rewrite lookup_insert_ne; [done|]. intros ->. congruence.
+    - destruct HL as [H1 H2 H3 H4]. unfold Conc.cstep in Hs. destruct (env (data s) k); [|done]. simplify_eq/=.
+      by constructor.
   Qed.
 
   Lemma LInv_run cap cf ls : ∀ s s' : cstate, crun cap cf s ls = Some s' → LInv cf s → LInv cf s'.
@@ -643,7 +651,7 @@ Section Live.
     - by intros [= ->].
     - destruct (cstep cap cf s l) as [s1|] eqn:Hs; [|done]. intros Hr HL. eapply IH; [done|]. by eapply LInv_step.
   Qed.
-  Theorem reachable_LInv : ∀ cap cf d (s : cstate), reachable api closed_result cap cf d s → LInv cf s.
+  Theorem reachable_LInv : ∀ cap cf d (s : cstate), reachable api closed_result pre hnd env cap cf d s → LInv cf s.
   Proof. intros cap cf d s [ls Hr]. eapply LInv_run; [done|]. apply LInv_init. Qed.
 
   (* ------------------------------------------------------------------------------------------------------------ *)
@@ -653,19 +661,28 @@ Section Live.
     Variable d0 : D.
     Variable c0 : C.
     Variable x0 : X.
+    Variable i0 : I.
+    (* one notification whose handling, on the initial data, sends an error (a pending error) and nothing else *)
+    Hypothesis Hpre0 : pre i0 = [].
+    Hypothesis Hhnd0 : (hnd d0 i0).2 = [MEr x0].
 
     Definition cf_bad : cfacts := mkCf true true.
-    (* one notification whose handling sends an error (a pending error) and nothing else *)
-    Definition dl_item : item := mkItem [] [MEr x0].
     Definition dl_labels : list label :=
-      [LThr reader_tid; LKernel [dl_item]; LThr reader_tid; LThr reader_tid; LThr reader_tid; LThr reader_tid;
+      [LThr reader_tid; LKernel [i0]; LThr reader_tid; LThr reader_tid; LThr reader_tid; LThr reader_tid;
        LSpawn 1 (CStart c0); LThr 1; LSpawn 2 KStart].
     Definition dl_state : cstate :=
       mkC (Some reader_tid) false false false [] false false (RCsSend [MEr x0] [] [])
-          (<[2:=KStart]> (<[1:=CWantLock c0]> (<[1:=CStart c0]> ∅))) d0 [] [] [] false.
+          (<[2:=KStart]> (<[1:=CWantLock c0]> (<[1:=CStart c0]> ∅))) (hnd d0 i0).1 [] [] [LinHandle i0 [MEr x0]] [i0] false.
 
     Lemma dl_run cap : crun cap cf_bad (cinit d0) dl_labels = Some dl_state.
-    Proof. reflexivity. Qed.
+    Proof.
+      unfold dl_labels, dl_state. destruct (hnd d0 i0) as [d1 post] eqn:Hh. simpl in Hhnd0. subst post.
+      do 3 (erewrite crun_cons by reflexivity).
+      erewrite crun_cons by (rewrite cstep_rd; unfold Conc.reader_step; simpl; rewrite Hpre0; reflexivity).
+      erewrite crun_cons by reflexivity.
+      erewrite crun_cons by (rewrite cstep_rd; unfold Conc.reader_step; simpl; rewrite Hh; reflexivity).
+      reflexivity.
+    Qed.
 
     Definition idle (p : cpc) : Prop :=
       match p with CStart _ | CWantLock _ | CDone _ | KStart => True | _ => False end.
@@ -693,9 +710,9 @@ Section Live.
       Stuck s → match l with LConsumeEv | LConsumeEr => False | _ => True end →
       cstep cap cf_bad s l = Some s' → Stuck s'.
     Proof.
-      intros HS Hl Hs. pose proof HS as (Hm & Hd & Hrd & H1 & H2 & Hi). destruct l as [t| | |b|t p]; try done.
+      intros HS Hl Hs. pose proof HS as (Hm & Hd & Hrd & H1 & H2 & Hi). destruct l as [t| | |b|t p|k]; try done.
       - destruct (decide (t = reader_tid)) as [->|Ht].
-        + rewrite cstep_rd in Hs. unfold reader_step in Hs. by rewrite Hrd, Hd in Hs.
+        + rewrite cstep_rd in Hs. unfold Conc.reader_step in Hs. by rewrite Hrd, Hd in Hs.
         + rewrite cstep_thr in Hs by done. unfold Conc.thread_step in Hs.
           destruct (thr s !! t) as [p|] eqn:Hp; [|done]. pose proof (Hi t p Hp) as Hidle.
           destruct p as [c|c|c|r| | | | |]; try done.
@@ -712,6 +729,7 @@ Section Live.
         apply Stuck_upd_thr; [done|done| |].
         { intros ->. congruence. }
         { intros ->. congruence. }
+      - unfold Conc.cstep in Hs. destruct (env (data s) k); [|done]. injection Hs as <-. exact HS.
     Qed.
 
     Lemma stuck_run cap ls : ∀ s s' : cstate,
@@ -756,7 +774,7 @@ Section Live.
        LInv (li_no_cs_send) of caller_returns / reader_exits / close_returns. *)
     Definition sharp_a : cstate :=
       mkC (Some reader_tid) false false false [] false false (RCsSend [MEr x0] [] [])
-          {[ (1 : tid) := CWantLock c0 ]} d0 [] [] [] false.
+          {[ (1 : tid) := CWantLock c0 ]} d0 [] [] [] [] false.
     Lemma sharp_a_CInv cap : CInv cap sharp_a.
     Proof.
       constructor; simpl; try done; try lia.
@@ -771,7 +789,7 @@ Section Live.
       ∀ ls s', only_threads ls → crun cap cf sharp_a ls = Some s' → s' = sharp_a.
     Proof.
       intros cap cf. split; [apply sharp_a_CInv|]. split; [reflexivity|].
-      intros [|[t| | |b|t p] ls] s' Ho; [by intros [= <-]|..]; try (by apply Forall_cons in Ho as [[] _]).
+      intros [|[t| | |b|t p|k] ls] s' Ho; [by intros [= <-]|..]; try (by apply Forall_cons in Ho as [[] _]).
       intros Hr. exfalso. simpl in Hr. destruct (decide (t = reader_tid)) as [->|Ht]; [done|].
       unfold Conc.thread_step in Hr. simpl in Hr.
       destruct (decide (t = 1)) as [->|Ht1]; [by rewrite lookup_singleton in Hr|].
@@ -786,7 +804,7 @@ Section Live.
     Definition sharp_b : cstate :=
       mkC None true false true [] false false RExit2
           (<[2:=KDone]> (<[2:=KInCs]> (<[2:=KStart]> (<[1:=KCloseFile]> (<[1:=KInCs]> (<[1:=KStart]> ∅))))))
-          d0 [] [] [] false.
+          d0 [] [] [] [] false.
     Lemma sharp_b_run cap cf : crun cap cf (cinit d0) sharp_b_labels = Some sharp_b.
     Proof. reflexivity. Qed.
     Lemma sharp_b_thr t p :
@@ -803,7 +821,7 @@ Section Live.
       - intros t Hp. apply sharp_b_thr in Hp as [[_ ?]|[_ ?]]; done.
     Qed.
     Theorem resources_released_as_stated_fails : ∀ cap cf,
-      reachable api closed_result cap cf d0 sharp_b ∧ CInv cap sharp_b ∧
+      reachable api closed_result pre hnd env cap cf d0 sharp_b ∧ CInv cap sharp_b ∧
       thr sharp_b !! (2 : tid) = Some KDone ∧ resp_closed sharp_b = true ∧ file_closed sharp_b = false.
     Proof.
       intros cap cf. split; [exists sharp_b_labels; apply sharp_b_run|]. split; [apply sharp_b_CInv|]. done.
@@ -812,13 +830,16 @@ Section Live.
 End Live.
 
 (* a closed instance of the deadlock witness *)
+Definition dl_pre : nat → list (@msg nat nat) := λ _, [].
+Definition dl_hnd : nat → nat → nat * list (@msg nat nat) := λ d _, (d, [MEr 3]).
+Definition dl_env : nat → nat → option nat := λ d k, Some (d + k).
 Example send_in_cs_deadlocks_nat :
-  ∃ (cap : nat) (ls : list (@label nat nat nat nat)) (s : @cstate nat nat nat nat nat),
-    crun (λ d c, (d, 0)) (λ _, 0) cap (mkCf true true) (cinit 0) ls = Some s ∧
+  ∃ (cap : nat) (ls : list (@label nat nat nat nat)) (s : @cstate nat nat nat nat nat nat nat),
+    crun (λ d c, (d, 0)) (λ _, 0) dl_pre dl_hnd dl_env cap (mkCf true true) (cinit 0) ls = Some s ∧
     thr s !! 1 = Some (CWantLock 7) ∧ thr s !! 2 = Some KStart ∧
-    (∀ ls' s', no_consumer ls' → crun (λ d c, (d, 0)) (λ _, 0) cap (mkCf true true) s ls' = Some s' →
+    (∀ ls' s', no_consumer ls' → crun (λ d c, (d, 0)) (λ _, 0) dl_pre dl_hnd dl_env cap (mkCf true true) s ls' = Some s' →
                thr s' !! 1 = Some (CWantLock 7) ∧ thr s' !! 2 = Some KStart ∧ done_closed s' = false).
-Proof. apply (send_in_cs_deadlocks (λ d c, (d, 0)) (λ _, 0) 0 7 3). Qed.
+Proof. apply (send_in_cs_deadlocks (λ d c, (d, 0)) (λ _, 0) dl_pre dl_hnd dl_env 0 7 3 0 eq_refl eq_refl). Qed.
 
 Print Assumptions caller_returns.
 Print Assumptions close_returns.
